@@ -73,7 +73,7 @@ def _worker(job):
         return dict(cid=cid, variant=variant, status=r.status, paths=r.paths, complete=r.complete,
                     unsupported=r.unsupported[:20], crash=r.crash, sha=r.func_sha, target=c.target,
                     abstracted=r.abstracted, notes=r.notes, bounded=r.bounded, obligations=obs,
-                    seconds=round(time.time() - t0, 2), props=c.props, note=c.note,
+                    seconds=round(time.time() - t0, 2), props=c.props, note=c.note, is_bounded=c.bounded,
                     requires=c.requires, modular=c.modular)
     except Exception:
         return dict(cid=cid, variant=variant, status='crash', crash=traceback.format_exc(), obligations=[],
@@ -175,13 +175,19 @@ def run_property(pid, tier='quick', seed=0, only=None):
                 undecided.append(f'{rec["cid"]}: {u}')
             if not rec['obligations'] and not rec['unsupported']:
                 undecided.append(f'{rec["cid"]}: zero obligations generated (vacuous)')
+            if rec.get('is_bounded'):
+                ok = all(ob['verdict'] == 'unsat' for ob in rec['obligations']) and not rec['unsupported']
+                bounded.append(f'{rec["cid"]}: BOUNDED stand-in ({rec["is_bounded"]}); {len(rec["obligations"])} checks, '
+                               f'{"all passed" if ok else "NOT all passed"}; not counted in obligations/discharged')
             for ob in rec['obligations']:
-                n_ob += 1
+                if not rec.get('is_bounded'):
+                    n_ob += 1
                 solver_s += ob['seconds']
                 for b, n in ob['backends'].items():
                     by_backend[b] = by_backend.get(b, 0) + n
                 if ob['verdict'] == 'unsat':
-                    n_dis += 1
+                    if not rec.get('is_bounded'):
+                        n_dis += 1
                     if len(samples) < 6 and ob.get('sample'):
                         samples.append(dict(obligation=f'{pid}/{rec["cid"]}/{ob["name"]}', clause=ob['note'],
                                             vc=ob['sample'][:400], instances=ob['instances']))
